@@ -1,5 +1,6 @@
 import QclibModel.Model.DriverLib
 import QclibModel.Model.Mixed
+import QclibModel.Gen.MixedWidth
 open Lean Qclib Qclib.Drv Qclib.Mixed
 
 /-- IEEE doubles: the instance the tie runs the validation model on (NaN/inf semantics are the
@@ -50,6 +51,10 @@ def runOp (j : Json) : List String :=
     | .error e => ["raise " ++ e.name]
     | .ok acc => [s!"accept {acc.numQubits} {acc.numCtrl} {acc.numData} ;"
                     ++ " ".intercalate (acc.probs.map (fun p => " " ++ fbits p))]
+  | "gen_width" =>
+    -- double tie of the translation: the definitions generated from the current source
+    (jNats j "ks").toList.map (fun k =>
+      s!"nq {k} {Qclib.Gen.MixedWidth.mixed_num_qubits (Int.ofNat (jNat j "dim")) (Int.ofNat k)} {Qclib.Gen.MixedWidth.mixed_num_ctrl (Int.ofNat k)} ;")
   | "width" => (jNats j "ks").toList.map (fun k => s!"nq {k} {numQubits (jNat j "dim") k} {clog2 k} ;")
   | "wrap" =>
     let k := jNat j "k"; let n := jNat j "n"; let a := clog2 k
